@@ -171,19 +171,19 @@ theorem consec_no_between : ∀ (L : List Rat), L.Pairwise (· < ·) → ∀ u v
           exact lt_irrefl _ (lt_trans this h1)
         · exact consec_no_between (v0 :: rest) hs' u v h t (by simpa using ht)
 
-/-- telescoping: if every consecutive pair of parameters is `(v − u)·T` apart, the polyline through the curve
-    points at these parameters has length `(last − first)·T` -/
-theorem polyLenD_telescope (d : α → α → Rat) (f : Rat → α) (T : Rat) : ∀ (L : List Rat) (first last : Rat),
+/-- telescoping: if every consecutive pair of parameters is `S v − S u` apart (`S` = length along the curve), the polyline
+    through the curve points at these parameters has length `S last − S first` -/
+theorem polyLenD_telescope (d : α → α → Rat) (f : Rat → α) (S : Rat → Rat) : ∀ (L : List Rat) (first last : Rat),
     L.head? = some first → L.getLast? = some last →
-    (∀ u v, (u, v) ∈ L.zip L.tail → d (f u) (f v) = (v - u) * T) →
-    polyLenD d (L.map f) = (last - first) * T
+    (∀ u v, (u, v) ∈ L.zip L.tail → d (f u) (f v) = S v - S u) →
+    polyLenD d (L.map f) = S last - S first
   | [], _, _, h, _, _ => by simp at h
   | [x], first, last, hf, hl, _ => by
       simp at hf hl; subst hf; subst hl; simp [polyLenD]
   | x :: y :: rest, first, last, hf, hl, h => by
       simp at hf; subst hf
       have hl' : (y :: rest).getLast? = some last := by simpa [List.getLast?_cons_cons] using hl
-      have ih := polyLenD_telescope d f T (y :: rest) y last rfl hl' (by
+      have ih := polyLenD_telescope d f S (y :: rest) y last rfl hl' (by
         intro u v huv
         exact h u v (by simp only [List.tail_cons, List.zip_cons_cons, List.mem_cons]; right; simpa using huv))
       have h0 := h x y (by simp)
